@@ -1343,6 +1343,11 @@ pub struct HistoryIterator<'a> {
 	first_visible_seen: bool,
 	latest_is_hard_delete: bool,
 	barrier_seen: bool, // True once we hit HARD_DELETE or REPLACE
+	/// Sequence number of the entry examined last for `current_user_key`. The same entry
+	/// can reach the merge from two sources (a memtable rebuilt from the WAL after a
+	/// crash and the version index that already holds it; the two memtables of a batch
+	/// that was re-applied after a rotation): it is listed once.
+	last_seq_seen: Option<u64>,
 
 	// === Backward iteration state (buffered) ===
 	backward_buffer: Vec<BufferedEntry>,
@@ -1381,6 +1386,7 @@ impl<'a> HistoryIterator<'a> {
 			first_visible_seen: false,
 			latest_is_hard_delete: false,
 			barrier_seen: false,
+			last_seq_seen: None,
 			backward_buffer: Vec::new(),
 			backward_buffer_index: None,
 			ts_range,
@@ -1417,6 +1423,7 @@ impl<'a> HistoryIterator<'a> {
 		self.first_visible_seen = false;
 		self.latest_is_hard_delete = false;
 		self.barrier_seen = false;
+		self.last_seq_seen = None;
 	}
 
 	fn clear_backward_buffer(&mut self) {
@@ -1569,7 +1576,15 @@ impl<'a> HistoryIterator<'a> {
 				self.first_visible_seen = false;
 				self.latest_is_hard_delete = false;
 				self.barrier_seen = false;
+				self.last_seq_seen = None;
 			}
+
+			// A second copy of the entry just examined (same key, same sequence number)
+			if self.last_seq_seen == Some(seq_num) {
+				self.inner_next()?;
+				continue;
+			}
+			self.last_seq_seen = Some(seq_num);
 
 			// Skip invisible versions
 			if seq_num > self.snapshot_seq_num {
@@ -1710,7 +1725,10 @@ impl<'a> HistoryIterator<'a> {
 				None => true,
 			};
 
-			if visible && in_ts_range {
+			// A second copy of the entry just collected (same key, same sequence number)
+			let duplicate = versions.last().is_some_and(|v| v.encoded_key.as_slice() == key_ref.encoded());
+
+			if visible && in_ts_range && !duplicate {
 				versions.push(VersionInfo {
 					is_hard_delete: key_ref.is_hard_delete_marker(),
 					is_replace: key_ref.is_replace(),
